@@ -160,3 +160,16 @@ func AMFID24(s string) uint32 {
 func AMFRegion(id uint32) uint8  { return uint8(id >> 16) }
 func AMFSet(id uint32) uint16    { return uint16(id>>6) & 0x3ff }
 func AMFPointer(id uint32) uint8 { return uint8(id) & 0x3f }
+
+// IsImsiSupi: s is "imsi-" followed by at least one and at most 15 decimal digits (TS 23.003 2.2A, 2.2).
+func IsImsiSupi(s string) bool {
+	if len(s) < 6 || len(s) > 20 || s[0] != 'i' || s[1] != 'm' || s[2] != 's' || s[3] != 'i' || s[4] != '-' {
+		return false
+	}
+	for i := 5; i < len(s); i++ {
+		if s[i] < '0' || s[i] > '9' {
+			return false
+		}
+	}
+	return true
+}
